@@ -237,7 +237,7 @@ func (api *API) mapEncodeStructFields(
 
 func (api *API) mapEncodeSlice(ctx context.Context, value reflect.Value, valueType reflect.Type,
 	ts TypeSettings, opts *options) (any, error) {
-	if ts.ObjectType() != nil {
+	if ts.ObjectType() != nil && valueType.AssignableTo(bytesType) {
 		m := orderedmap.New()
 		m.Set(keyType, ts.ObjectType())
 		fieldKey := keyDefaultSliceArray
